@@ -179,7 +179,7 @@ pub fn check_bytes(ctx: &mut Ctx, b: &[u8], watch: Option<&Watch>, origin: &'sta
 
 pub fn run(p: &Params) -> Outcome {
     let seed = p.seed;
-    let n = p.size(8_000_000, 400_000_000);
+    let n = p.size(8_000_000, 200_000_000);
     let per = n / p.workers as u64;
     let nums: Vec<u16> = gen::supported_numbers().to_vec();
     let nums2 = nums.clone();
@@ -201,6 +201,12 @@ pub fn run(p: &Params) -> Outcome {
                     let len = *rng.pick(&[2usize, 2, 3, 4, 8, 30]);
                     let f = gen::any_number_frame(&mut rng, n as u16, len);
                     check_bytes(ctx, &f, Some(&wt), "frames_any_number_short_payload");
+                }
+                1 if i % 64_000 == 1 => {
+                    let big = gen::long_stream(&mut rng, 270_000);
+                    check_bytes(ctx, &big, Some(&wt), "streams_longer_than_64KiB");
+                    let k = rng.usize_below(big.len() - 65_000);
+                    check_bytes(ctx, &big[k..], Some(&wt), "streams_longer_than_64KiB");
                 }
                 1 => {
                     let max = if i % 800 == 1 { 65_536 } else { 3_000 };
